@@ -163,6 +163,16 @@ enum qb_ipcs_connection_state {
 	QB_IPCS_CONNECTION_SHUTTING_DOWN,
 };
 
+/*
+ * Where connection_closed() stands for a connection that is SHUTTING_DOWN.
+ */
+enum qb_ipcs_closed_state {
+	QB_IPCS_CLOSED_TODO,	/* has to be called (again) */
+	QB_IPCS_CLOSED_RUNNING,	/* we are inside it */
+	QB_IPCS_CLOSED_RETRY,	/* it asked to be re-run: the job is queued */
+	QB_IPCS_CLOSED_DONE,	/* it returned 0: the initial reference is gone */
+};
+
 #define CONNECTION_DESCRIPTION NAME_MAX
 
 struct qb_ipcs_connection_auth {
@@ -173,6 +183,7 @@ struct qb_ipcs_connection_auth {
 
 struct qb_ipcs_connection {
 	enum qb_ipcs_connection_state state;
+	enum qb_ipcs_closed_state closed_state;
 	int32_t refcount;
 	pid_t pid;
 	uid_t euid;
